@@ -1,4 +1,4 @@
-"""C10: FlatMap conforms to an insertion-ordered unique-key map (FlatMap<int,int>; ParameterizedObject not covered).
+"""C10: FlatMap conforms to an insertion-ordered unique-key map (FlatMap<int,int>); ParameterizedObject typed reads / query flag.
 
 Sequence facts are stated at ghost indices: verif_gi / verif_gj are arbitrary (nondeterministic, unconstrained) positions, so
 an obligation proved for them is proved for every position; assumed contracts (vector reallocation) are instantiated at the
@@ -14,7 +14,7 @@ SZ = "sizeof(pair_ii)"
 NB = int(os.environ.get("VERIF_FLATMAP_NB", "6" if os.environ.get("VERIF_TIER_EFFECTIVE") == "thorough" else "4"))
 
 HELPERS = """
-pair_ii g_s_gi, g_s_gj;      /* ghost: the entries found at positions verif_gi / verif_gj on entry (when inside the map) */
+pair_ii g_s_gi, g_s_gj, g_s_hi, g_s_hj;      /* ghost: the entries found at positions verif_gi / gj / hi / hj on entry (when inside the map) */
 pair_ii g_old[%d];           /* ghost (bounded checks): all entries on entry */
 """ % NB
 
@@ -37,6 +37,8 @@ def map_harness(bound=None):
   verif_gi = nondet_ulong(); verif_gj = nondet_ulong(); verif_hi = nondet_ulong(); verif_hj = nondet_ulong();
   if (verif_gi < in_n) g_s_gi = o_@0.values.b[verif_gi];
   if (verif_gj < in_n) g_s_gj = o_@0.values.b[verif_gj];
+  if (verif_hi < in_n) g_s_hi = o_@0.values.b[verif_hi];
+  if (verif_hj < in_n) g_s_hj = o_@0.values.b[verif_hj];
 """ % dict(M=MAXCAP, C=(str(bound) + "ul") if bound else "nondet_ulong()")
 
 
@@ -48,7 +50,23 @@ def units():
     find_if_loop = ("    __CPROVER_assigns(first)\n    __CPROVER_loop_invariant(%s)\n"
                     "    __CPROVER_loop_invariant(IMP(verif_gi < (unsigned long)(__CPROVER_POINTER_OFFSET(first) - __CPROVER_POINTER_OFFSET(verif_first0)) / %s, verif_first0[verif_gi].first != *pred.__cap0))\n"
                     "    __CPROVER_decreases(__CPROVER_POINTER_OFFSET(last) - __CPROVER_POINTER_OFFSET(first))" % (ptr_inv, SZ))
-    U = Unit("c10_flatmap", "units/c10_flatmap.cpp", helpers=HELPERS, opts=dict(tracked_vec=True, model_loops={"find_if:1": find_if_loop}))
+    K = "(*pred.__cap0)"
+    KEEP = lambda x: "(%s.first != %s)" % (x, K)
+    inv = ["i <= n && kw <= i && r <= i && kw + r == i"]
+    for G in ("gi", "gj", "hi", "hj"):
+        inv.append("IMP(verif_%s >= i && verif_%s < n, %s)" % (G, G, EQ("first[verif_%s]" % G, "verif_s_%s" % G)))
+    for (G, H) in (("gi", "hi"), ("gj", "hj")):
+        d, sr = "verif_sp_dest_" + G[1], "verif_sp_src_" + G[1]
+        inv.append("IMP(verif_%s < i && %s, %s < kw && %s)" % (G, KEEP("verif_s_" + G), d, EQ("first[%s]" % d, "verif_s_" + G)))
+        inv.append("IMP(verif_%s < kw, %s < i && %s >= verif_%s && %s)" % (G, sr, sr, G, KEEP("first[verif_%s]" % G)))
+        inv.append("IMP(verif_%s < kw && verif_%s == %s, %s)" % (G, H, sr, EQ("first[verif_%s]" % G, "verif_s_" + H)))
+    inv.append("IMP(verif_gi < verif_gj && verif_gj < i && %s && %s, verif_sp_dest_i < verif_sp_dest_j)" % (KEEP("verif_s_gi"), KEEP("verif_s_gj")))
+    inv.append("IMP(verif_gi < verif_gj && verif_gj < kw, verif_sp_src_i < verif_sp_src_j)")
+    inv.append("IMP(verif_gi < i && !%s, r >= 1)" % KEEP("verif_s_gi"))
+    sp_loop1 = ("    __CPROVER_assigns(i, kw, r, __CPROVER_object_whole(first), __CPROVER_object_whole(tmp), verif_sp_dest_i, verif_sp_dest_j, verif_sp_src_i, verif_sp_src_j)\n"
+                + "".join("    __CPROVER_loop_invariant(%s)\n" % x for x in inv) + "    __CPROVER_decreases(n - i)")
+    sp_loop2 = "      __CPROVER_assigns(k, __CPROVER_object_from(first + kw))\n      __CPROVER_loop_invariant(k <= r)\n      __CPROVER_decreases(r - k)"
+    U = Unit("c10_flatmap", "units/c10_flatmap.cpp", helpers=HELPERS, opts=dict(tracked_vec=True, model_loops={"find_if:1": find_if_loop, "stable_partition:1": sp_loop1, "stable_partition:2": sp_loop2}))
     base = dict(pre_call=map_harness(), ptr_requires=True)
     LOOK = {"lookup_returns_a_position_inside_the_map_or_end": "RET == %s + %s && %s <= %s" % (B, IDX, IDX, N),
             "lookup_result_holds_the_key": "IMP(%s < %s, %s[%s].first == *$1)" % (IDX, N, B, IDX),
@@ -108,17 +126,97 @@ int main()
     ER = {"erase_removes_exactly_the_entries_with_the_key": "%s == %s - %s" % (N, N0, cnt(NB)), "storage_stays_well_formed": INV, "erase_never_throws": "__verif_exc == 0"}
     for k in range(NB):
         ER["entry_%d_survives_in_order_unless_it_has_the_key" % k] = "IMP(%d < %s && g_old[%d].first != *$1, %s)" % (k, N0, k, EQ("%s[%d - %s]" % (B, k, cnt(k)), "g_old[%d]" % k))
-    U.fn("fm_erase", requires=[INV, KEYSEP, "%s <= %d" % (N, NB), "__verif_exc == 0"] + OLDREQ, assigns=[V, "__CPROVER_object_whole(%s)" % B, "__verif_exc"], frees=[B],
+    SPG = ["verif_sp_dest_i", "verif_sp_dest_j", "verif_sp_src_i", "verif_sp_src_j", "verif_sp_kept"]
+    KS = lambda x: "(%s.first != *$1)" % x
+    SNAPH = ["IMP(verif_hi < %s, %s)" % (N, EQ(B + "[verif_hi]", "g_s_hi")), "IMP(verif_hj < %s, %s)" % (N, EQ(B + "[verif_hj]", "g_s_hj"))]
+    UNIQH = "IMP(verif_hi < verif_hj && verif_hj < %s, %s[verif_hi].first != %s[verif_hj].first)" % (N, B, B)
+    U.fn("fm_erase", requires=[INV, KEYSEP, UNIQH, "__verif_exc == 0"] + SNAP + SNAPH, assigns=[V, "__CPROVER_object_whole(%s)" % B, "__verif_exc"] + SPG, frees=[B], apply_loops=True,
+         pre_call=map_harness(), ptr_requires=True, timeout=1500, solver=["--sat-solver", "cadical"], flags=["--unwind", "3", "--unwinding-assertions"], ensures={
+        "storage_stays_well_formed": INV, "erase_never_throws": "__verif_exc == 0",
+        "size_is_the_number_of_entries_kept": "%s == verif_sp_kept && %s <= %s" % (N, N, N0),
+        "every_other_entry_survives": "IMP(verif_gi < %s && %s, verif_sp_dest_i < %s && %s)" % (N0, KS("g_s_gi"), N, EQ("%s[verif_sp_dest_i]" % B, "g_s_gi")),
+        "survivors_keep_their_relative_order": "IMP(verif_gi < verif_gj && verif_gj < %s && %s && %s, verif_sp_dest_i < verif_sp_dest_j)" % (N0, KS("g_s_gi"), KS("g_s_gj")),
+        "every_remaining_entry_is_an_old_entry_without_the_key": "IMP(verif_gi < %s && verif_hi == verif_sp_src_i, verif_hi < %s && %s && %s)" % (N, N0, EQ("%s[verif_gi]" % B, "g_s_hi"), KS("g_s_hi")),
+        "remaining_entries_come_from_increasing_old_positions": "IMP(verif_gi < verif_gj && verif_gj < %s, verif_sp_src_i < verif_sp_src_j)" % N,
+        "no_entry_with_the_key_remains": "IMP(verif_gi < %s, %s[verif_gi].first != *$1)" % (N, B),
+        "an_entry_with_the_key_shrinks_the_map": "IMP(verif_gi < %s && !%s, %s < %s)" % (N0, KS("g_s_gi"), N, N0),
+        "keys_stay_unique": "IMP(verif_gi < verif_gj && verif_gj < %s && verif_hi == verif_sp_src_i && verif_hj == verif_sp_src_j, %s[verif_gi].first != %s[verif_gj].first)" % (N, B, B)})
+    U.fn("fm_erase", variant="bounded", requires=[INV, KEYSEP, "%s <= %d" % (N, NB), "__verif_exc == 0"] + OLDREQ, assigns=[V, "__CPROVER_object_whole(%s)" % B, "__verif_exc"] + SPG, frees=[B],
          pre_call=map_harness(bound=NB) + "  __CPROVER_assume(in_n <= %d);\n" % NB + olds, ptr_requires=True, unwind=NB + 2, replay_native=ERASE_REPLAY, ensures=ER)
-    return [U]
+    return [U, params_unit()]
+
+
+PSTUBS = """
+/* ASSUMED interface stubs: findParam returns the parameter the harness chose (none, or one live Param of this object);
+ * Any::is<T>() answers as the harness chose; get<T>() is only legal after is<T>() and yields the stored value. */
+_Bool g_q0;   /* ghost: the query flag of the found parameter on entry */
+Param *g_param; _Bool g_is_int, g_is_float; int g_int_val; float g_float_val;
+unsigned g_find_calls; _Bool g_find_add; Any *g_assigned_to; int g_assigned_val; unsigned g_assign_calls;
+Param *po_findParam(ParameterizedObject *self, std_basic_string_char *name, _Bool addIfNotExist) { g_find_calls++; g_find_add = addIfNotExist; return g_param; }
+_Bool any_is_int(Any *self) { __CPROVER_assert(g_param != 0 && self == &g_param->data, "is<T>() is asked of the found parameter's value"); return g_is_int; }
+_Bool any_is_float(Any *self) { __CPROVER_assert(g_param != 0 && self == &g_param->data, "is<T>() is asked of the found parameter's value"); return g_is_float; }
+int *any_get_int(Any *self) { __CPROVER_assert(g_param != 0 && self == &g_param->data && g_is_int, "get<int>() only on a value that is<int>()"); return &g_int_val; }
+float *any_get_float(Any *self) { __CPROVER_assert(g_param != 0 && self == &g_param->data && g_is_float, "get<float>() only on a value that is<float>()"); return &g_float_val; }
+Any *any_assign_int(Any *self, int rhs) { g_assigned_to = self; g_assigned_val = rhs; g_assign_calls++; return self; }
+"""
+
+
+def params_unit():
+    P = Unit("c10_params", "units/c10_params.cpp", stubs=PSTUBS,
+             opts=dict(opaque_std=True, opaque_extra=r"std::unique_ptr<", stub_bodies=["po_findParam", "any_is_int", "any_is_float", "any_get_int", "any_get_float", "any_assign_int"]))
+    P.stub("ParameterizedObject::findParam / Any::is<T> / Any::get<T> / Any::operator=(T)", "ASSUMED interface stubs in this unit (lookup by name and the type-erased value are not verified here): the typed-read and query-flag logic of getParam/hasParam/setParam is what is proved")
+    pre = """
+  static Param the_param;
+  _Bool in_q0 = nondet__Bool(); the_param.query = in_q0; g_q0 = the_param.query;
+  _Bool in_present = nondet__Bool(); g_param = in_present ? &the_param : (Param *)0;
+  _Bool in_is_int = nondet__Bool(); _Bool in_is_float = nondet__Bool(); g_is_int = in_is_int; g_is_float = in_is_float; __CPROVER_assume(!(g_is_int && g_is_float));
+  int in_int_val = nondet_int(); float in_float_val = nondet_float(); g_int_val = in_int_val; g_float_val = in_float_val;
+  g_find_calls = 0; g_find_add = 0; g_assign_calls = 0; g_assigned_to = 0;
+"""
+    GET_REPLAY = """
+int main()
+{
+  ParameterizedObject o;
+  bool present = IN_in_present, is_int = IN_in_is_int, is_float = IN_in_is_float, q0 = IN_in_q0;
+  if (present) {
+    if (is_int) o.setParam<int>("p", (int)IN_in_int_val); else if (is_float) o.setParam<float>("p", 1.5f); else o.setParam<double>("p", 2.5);
+    o.findParam("p")->query = q0;
+  }
+  %(T)s dflt = (%(T)s)7, got = o.getParam<%(T)s>("p", dflt);
+  bool exact = present && %(isv)s;
+  bool ok = exact ? (o.findParam("p")->query == true && got == %(val)s) : (got == dflt && (!present || o.findParam("p")->query == q0));
+  printf("getParam<%(T)s> on a %%s parameter (query flag %%d before): returned %%g, flag after %%d -> %%s\\n", !present ? "missing" : is_int ? "int" : is_float ? "float" : "double", (int)q0, (double)got,
+         present ? (int)o.findParam("p")->query : -1, ok ? "as specified" : "NOT as specified");
+  printf("REPLAY RESULT: %%s\\n", ok ? "not reproduced" : "violation reproduced on real code");
+  return ok ? 0 : 1;
+}
+"""
+    GA = ["g_find_calls", "g_find_add", "g_assigned_to", "g_assigned_val", "g_assign_calls", "__verif_exc"]
+    REQ = ["g_param == 0 || __CPROVER_rw_ok(g_param, sizeof(*g_param))", "g_find_calls == 0 && g_assign_calls == 0", "!(g_is_int && g_is_float)", "__verif_exc == 0"]
+    Q0 = "__CPROVER_old(g_param != 0 ? g_param->query : 0)"
+    for (nm, isv, val, eq) in (("po_getParam_int", "g_is_int", "g_int_val", lambda a, b: "%s == %s" % (a, b)), ("po_getParam_float", "g_is_float", "g_float_val", lambda a, b: "FEQ(%s, %s)" % (a, b))):
+        P.fn(nm, pre_call=pre, requires=REQ + ["IMP(g_param != 0, g_param->query == g_q0)"], assigns=GA + ["g_param->query"],
+             replay_native=GET_REPLAY % (dict(T="int", isv="is_int", val="(int)IN_in_int_val") if nm.endswith("int") else dict(T="float", isv="is_float", val="1.5f")), ensures={
+            "looks_the_name_up_once_without_creating_it": "g_find_calls == 1 && g_find_add == 0",
+            "absent_parameter_yields_the_default": "IMP(g_param == 0, %s)" % eq("RET", "$2"),
+            "wrong_type_yields_the_default_and_is_not_marked_queried": "IMP(g_param != 0 && !%s, %s && g_param->query == g_q0)" % (isv, eq("RET", "$2")),
+            "exact_type_returns_the_value_and_marks_it_queried": "IMP(g_param != 0 && %s, %s && g_param->query == 1)" % (isv, eq("RET", val)),
+            "never_throws": "__verif_exc == 0"})
+    P.fn("po_hasParam", pre_call=pre, requires=REQ + ["IMP(g_param != 0, g_param->query == g_q0)"], assigns=GA, ensures={
+        "hasParam_is_presence_and_creates_nothing": "RET == (g_param != 0) && g_find_calls == 1 && g_find_add == 0",
+        "hasParam_does_not_mark_queried": "IMP(g_param != 0, g_param->query == g_q0)"})
+    P.fn("po_setParam_int", pre_call=pre + "  __CPROVER_assume(g_param != 0);\n", requires=REQ + ["g_param != 0", "g_param->query == g_q0"], assigns=GA, ensures={
+        "setParam_creates_if_missing_and_stores_the_value_in_that_parameter": "g_find_calls == 1 && g_find_add == 1 && g_assign_calls == 1 && g_assigned_to == &g_param->data && g_assigned_val == *$2",
+        "setParam_does_not_mark_queried": "g_param->query == g_q0"})
+    return P
 
 
 META = dict(
     level="proof",
-    level_text="FlatMap<int,int>'s lookup (both overloads), at (x2), operator[], contains, at_index (x2), size, empty, clear and the begin/end family are extracted from /repo and proved by CBMC function contracts for maps of ANY size (up to 2^40 entries): lookup returns the first entry with the key or end (loop contract on the std::find_if reference model), at throws std::out_of_range exactly when no entry has the key and otherwise returns the value slot of the first such entry, operator[] returns the slot of an entry with the key, leaves a present key's map unchanged, appends an absent key last with a value-initialised value while every earlier entry keeps its position and value, and keeps keys unique; at_index(i) is entry i in insertion order or out_of_range. Facts about all entries are proved at arbitrary ghost positions (verif_gi, verif_gj). erase is checked by a BOUNDED stand-in (maps of at most 4 entries quick / 6 thorough, loops unwound with unwinding assertions) against the complete specification 'the result is the order-preserving filter of the old entries'.",
-    level_note="erase is BOUNDED (not a proof): std::stable_partition's reference model is unwound for maps of at most NB entries. std::vector is a value-tracking MODEL whose reallocation step is an assumed contract instantiated at the ghost positions; std::find_if/std::stable_partition/std::partition are reference models (C code). Only the FlatMap<int,int> instantiation; the key reference must not point into the map's own storage (precondition). ParameterizedObject (findParam/removeParam/getParam/query flags) is NOT verified: it needs std::string names, std::shared_ptr<Param> elements and utility::Any. Reverse iterators are not under contract. Histories are covered by induction over operations: every operation preserves the representation invariant (well-formed storage, unique keys) that the next one requires.",
-    explanation="CBMC function contracts with ghost-index sequence specifications; loop contract on the find_if model; bounded unwinding for erase only.",
+    level_text="FlatMap<int,int>'s lookup (both overloads), at (x2), operator[], contains, at_index (x2), size, empty, clear and the begin/end family are extracted from /repo and proved by CBMC function contracts for maps of ANY size (up to 2^40 entries): lookup returns the first entry with the key or end (loop contract on the std::find_if reference model), at throws std::out_of_range exactly when no entry has the key and otherwise returns the value slot of the first such entry, operator[] returns the slot of an entry with the key, leaves a present key's map unchanged, appends an absent key last with a value-initialised value while every earlier entry keeps its position and value, and keeps keys unique; at_index(i) is entry i in insertion order or out_of_range. Facts about all entries are proved at arbitrary ghost positions (verif_gi, verif_gj). erase is proved for maps of ANY size with loop contracts on a ghost-instrumented reference model of std::stable_partition: every entry without the key survives (at the recorded destination), survivors keep their relative order, every remaining entry is an old entry without the key (angelic ghost source), sources increase, no entry with the key remains, the size is the number kept, keys stay unique; the same operation is ALSO checked, for replayable counterexamples, by an exact bounded variant (maps of at most 4 entries quick / 6 thorough, loops unwound) against 'the result is the order-preserving filter of the old entries'.",
+    level_note="fm_erase#bounded is a bounded stand-in kept for native replay; the proof of erase is the unbounded fm_erase (265 s, CaDiCaL). std::vector is a value-tracking MODEL whose reallocation step is an assumed contract instantiated at the ghost positions; std::find_if/std::stable_partition/std::partition are reference models (C code). Only the FlatMap<int,int> instantiation; the key reference must not point into the map's own storage (precondition). ParameterizedObject: the typed-read / query-flag logic of getParam<int|float>, hasParam and setParam<int> IS proved (unit c10_params) against interface stubs for findParam and utility::Any (is<T>/get<T>/operator=): a missing or wrongly typed parameter yields the default and leaves the query flag alone, an exactly typed one returns the value and marks it queried, setParam asks findParam to create and does not mark queried. findParam/removeParam themselves (lookup by std::string name in a vector of shared_ptr) and resetAllParamQueryStatus are NOT verified. Reverse iterators are not under contract. Histories are covered by induction over operations: every operation preserves the representation invariant (well-formed storage, unique keys) that the next one requires.",
+    explanation="CBMC function contracts with ghost-index sequence specifications; loop contracts on the find_if and (ghost-instrumented) stable_partition models; an additional bounded exact variant of erase for replay.",
     assumptions=["std::vector value-tracking model (reallocation = assumed contract at ghost indices)", "std::find_if / std::stable_partition / std::partition reference models", "key reference does not alias the map's storage", "map holds fewer than 2^40 entries", "allocation never fails"],
-    bounded=["fm_erase: maps of at most 4 (quick) / 6 (thorough) entries, loops unwound NB+2 times with unwinding assertions"],
-    unverified=["ParameterizedObject", "reverse iterators", "other KEY/VALUE instantiations (std::string keys)", "reserve (no-op in the model)"],
+    bounded=["fm_erase#bounded (additional exact variant for replay): maps of at most 4 (quick) / 6 (thorough) entries, loops unwound NB+2 times with unwinding assertions"],
+    unverified=["ParameterizedObject::findParam / removeParam / resetAllParamQueryStatus (name lookup)", "utility::Any behind getParam (stubbed here; partially covered by C09)", "reverse iterators", "other KEY/VALUE instantiations (std::string keys)", "reserve (no-op in the model)"],
 )
